@@ -22,6 +22,20 @@ package keeper
 //@ ensures  forall q Bz :: q != types.MemberStoreKey(address, groupID) ==> Store_bandtss[q] == old(Store_bandtss)[q]
 //@ ensures  !old(bMemberHas(Store_bandtss, address, groupID)) ==> err != nil && Store_bandtss == old(Store_bandtss)
 //@ ensures  bWfMember(Store_bandtss, address, groupID)
+// ... and the tss-side flag is cleared for the SAME (group, address)
+//@ ensures  err == nil && old(bMemberHas(Store_bandtss, address, groupID)) && old(bMemberAt(Store_bandtss, address, groupID)).IsActive ==> Other == types.tssSetActive(old(Other), groupID, address, false)
+
+// C14 / C10: re-activation is possible only for an inactive member of THAT group and only once the inactivity penalty
+// has fully elapsed; it flips exactly this member's record, and sets the tss-side activity flag - the one the block
+// reward allocation reads - for the SAME (group, address), not for any other group the address belongs to
+//@ func (k Keeper) ActivateMember
+//@ modifies Store_bandtss, Other
+//@ requires bWfMember(Store_bandtss, address, groupID)
+//@ ensures  err == nil ==> old(bMemberHas(Store_bandtss, address, groupID)) && !old(bMemberAt(Store_bandtss, address, groupID)).IsActive
+//@ ensures  err == nil ==> !old(bMemberAt(Store_bandtss, address, groupID)).Since.Add(old(bParams(Store_bandtss)).InactivePenaltyDuration).After(ctx.BlockTime())
+//@ ensures  err == nil ==> bMemberAt(Store_bandtss, address, groupID).IsActive && bMemberAt(Store_bandtss, address, groupID).Since == ctx.BlockTime()
+//@ ensures  err == nil ==> Other == types.tssSetActive(old(Other), groupID, address, true)
+//@ ensures  forall q Bz :: q != types.MemberStoreKey(address, groupID) ==> Store_bandtss[q] == old(Store_bandtss)[q]
 
 // C10: when an attempt times out every idle member that is an (active) member of the signing's group is
 // deactivated -- all of them, not only those before the first already-inactive one.
